@@ -20,6 +20,9 @@ TStep ==
      \/ Ev.ev = "psend" /\ PeerSend(Ev.i)
      \/ Ev.ev \in {"pdrop", "ioshut"} /\ Lose
      \/ Ev.ev = "disc_call" /\ DiscCall
+     \/ Ev.ev = "reopen" /\ Reopen
+     \/ Ev.ev = "refused" /\ Refused
+     \/ Ev.ev = "state" /\ StateCb(Ev.online, Ev.state)
      \/ Ev.ev = "ret" /\ Ev.kind \in {"reply", "secop"} /\ RetReply(Ev.i, Ev.gid)
      \/ Ev.ev = "ret" /\ Ev.kind = "timeout" /\ RetTimeout(Ev.i, Ev.dt)
      \/ Ev.ev = "ret" /\ Ev.kind = "connerr" /\ RetConnErr(Ev.i)
@@ -27,7 +30,7 @@ TStep ==
      \/ Ev.ev = "ret" /\ Ev.kind = "secop" /\ Ev.gid = 0 /\ RetRefused(Ev.i)
      \/ Ev.ev = "ret" /\ Ev.kind = "timeout" /\ Dev_TimeoutStalePark(Ev.i)
      \/ Ev.ev = "ret" /\ Ev.kind = "timeout" /\ Dev_TimeoutLostInTxq(Ev.i)
-     \/ Ev.ev = "disc_ret" /\ Ev.exc = "" /\ DiscRetOK
+     \/ Ev.ev = "disc_ret" /\ Ev.exc = "" /\ life = "shutdown" /\ DiscRetOK       \* the shutdown was announced
      \/ Ev.ev = "disc_ret" /\ Ev.exc = "AttributeError" /\ Dev_DiscRaised(Ev.who)
      \/ Ev.ev = "end" /\ Ev.left = <<>> /\ Ev.excs = <<>> /\ DiscRetOK
      \/ Ev.ev = "end" /\ Ev.left = <<>> /\ Ev.excs # <<>> /\ \A n \in 1 .. Len(Ev.excs) : Ev.excs[n] = "AttributeError:join"
